@@ -93,6 +93,10 @@ func clip(s string) string {
 func gen(t *rapid.T) Case {
 	next := 0
 	c := Case{Doc: vgen.GenDoc(t, &next)}
+	if c.Doc.MediaType == "text/html" && rapid.Bool().Draw(t, "mixedcontent") {
+		next = 0
+		c.Doc = vgen.GenHTMLMixed(t, &next, rapid.IntRange(1, 4).Draw(t, "mixeddepth"))
+	}
 	n := rapid.IntRange(1, 8).Draw(t, "nwidths")
 	for i := 0; i < n; i++ {
 		switch rapid.IntRange(0, 5).Draw(t, "wkind") {
